@@ -581,6 +581,8 @@ var c16Known = []struct {
 	{"fractional-index-write", "a := [1 2 3]\na[1.5] = 9\na = a\n"},
 	{"shallow-repetition", "a := [[1]] * 2\na[0][0] = 7\na = a\n"},
 	{"loopvar-global", "x := 0\nfor i := range 3\n    x = x + i\nend\n"},
+	{"loopvar-clobbers-outer", "r := 0\nif true\n    x := 10\n    for x := range 3\n        r = r + x\n    end\n    r = r + x\nend\n"},
+	{"loopvar-clobbers-outer", "x := 10\nr := 0\nfor x := range 3\n    r = r + x\nend\nr = r + x\n"},
 	{"byte-strings", "s := \"äb\"\nt := s[0]\nt = t\n"},
 	{"byte-strings", "n := 0\nfor c := range \"äb\"\n    n = n + 1\n    if c == \"\"\n        n = 0\n    end\nend\n"},
 	{"zero-step", "x := 0\nfor range 1 5 0\n    x = 1\nend\n"},
@@ -718,7 +720,7 @@ func runC16(cfg Config, r *Result) {
 	}
 	// known-class stream: exactly one class enabled per program
 	gen2key := [][2]string{{"map-insert", "map-insert-lost"}, {"frac-index-write", "fractional-index-write"},
-		{"shallow-rep", "shallow-repetition"}, {"byte-strings", "byte-strings"}, {"zero-step", "zero-step"}}
+		{"shallow-rep", "shallow-repetition"}, {"byte-strings", "byte-strings"}, {"zero-step", "zero-step"}, {"loopvar-shadow", "loopvar-clobbers-outer"}}
 	for i, n := 0, cfg.N(100, 2500); i < n; i++ {
 		g := gen2key[i%len(gen2key)]
 		o := genOpts{MaxStmts: 3 + cfg.Rng.Intn(8), MaxDepth: 1 + cfg.Rng.Intn(3), ExprDepth: 1 + cfg.Rng.Intn(2), Classes: map[string]bool{g[0]: true}}
